@@ -433,6 +433,11 @@ def gen_loop(rng, P=None):
         t.trans.append(Tr(1, cond=("and", ("succeeded",), ("ctx_ge", "i", bound)), lang=lang, form=rng.randint(0, 3),
                           pubs=[("z", ("cat", "z", "|exit"))], do=[]))
         m.tags.add("loop_join")
+    if rng.random() < P.get("p_loop_head_join", 0.0) and "loop_join" not in m.tags and m.tasks[body[0]].items is None:
+        # the head of the loop is a `join: 1` task: it is entered from outside and by the looping transition, either arrival
+        # satisfies it (used by C15: inspection has to walk through a join that is the target of a back edge)
+        m.tasks[body[0]].join = 1
+        m.tags.add("loop_head_join")
     if rng.random() < P.get("p_loop_items_change", 0.0) and "loop_join" not in m.tags:
         # a with-items task in the body whose list is replaced by the looping transition: every pass has its own item count
         first = m.tasks[body[0]]
@@ -488,7 +493,7 @@ def gen_loop(rng, P=None):
 
 
 def _tag(m):
-    tags = set(t for t in m.tags if t in ("latevar", "loop", "loop_join", "loop_fork", "loop_fork_single", "loop_multi_entry", "loop_items_change"))
+    tags = set(t for t in m.tags if t in ("latevar", "loop", "loop_join", "loop_fork", "loop_fork_single", "loop_multi_entry", "loop_items_change", "loop_head_join"))
     for t in m.tasks.values():
         if t.join is not None:
             tags.add("join")
